@@ -262,6 +262,7 @@ func reportProperty(e *Engine, o runOpts, res *propResult) int {
 	twoAgree := 0
 	solverTime := 0.0
 	vacChecked, vacuous, deadSites := 0, 0, 0
+	var deadList []string
 	for _, m := range vacuityReport(res.obls) {
 		fmt.Println(m)
 		vacuous++
@@ -271,6 +272,7 @@ func reportProperty(e *Engine, o runOpts, res *propResult) int {
 			vacChecked++
 			if ob.Status == "unsat" {
 				deadSites++
+				deadList = append(deadList, ob.Name+" at "+ob.Pos)
 			}
 			continue
 		}
@@ -379,6 +381,7 @@ func reportProperty(e *Engine, o runOpts, res *propResult) int {
 		"known_findings_reported": known,
 		"vacuity_checks":          vacChecked,
 		"unreachable_return_sites": deadSites,
+		"unreachable_return_site_list": deadList,
 		"vacuity_note":            "for every return site of every function under contract the query 'assumptions ==> false' was posed; a function whose return sites are ALL unreachable is reported as a machinery error (contradictory assumptions); single unreachable sites are dead error handling",
 		"samples":                samples,
 		"explanation":            "every obligation is a verification condition generated from the SSA of /repo's current working tree for the functions listed, against the contracts in /repo/contracts_verif.go; discharged = answered unsat",
